@@ -229,6 +229,7 @@ def one_case(ctx, rng, der, wd, force3d=False, unequal=False):
             res = max(res, float(np.abs(Hs @ t.ravel()).max()))
         ctx.check("translations", res <= 1e-8 * scale * N, key + "/translations",
                   lambda: f"mass-weighted uniform translation not annihilated: residual {res:.3g} (scale {scale:.3g})", info)
+    ctx.check("frequencies", list(om.columns) == ["omega", "PR"], key + "/csv_layout", lambda: f"omega_PR.csv has columns {list(om.columns)}, expected ['omega', 'PR']", info)
     lam = np.linalg.eigvalsh(0.5 * (Hs + Hs.T))
     omega = om["omega"].values
     lam_obs = np.where(omega > 0, omega ** 2, omega)
